@@ -980,6 +980,9 @@ func runC20(w *World, r *Report) {
 	}
 
 	// ---- chain sticky
+	r.Rule("C20.nil-helper-receiver", "graphNode.getGenericHelper never calls a genericHelper method on the still-unset helper of a pass-through node (Add* must return errors, never panic)", 2)
+	nilHelperReceiverCheck(w, r, "C20.nil-helper-receiver")
+
 	r.Rule("C20.state-handler-validated", "every way of declaring a state pre-/post-handler (plain and stream option constructors) reaches addNode's state validation: guards on option fields in front of the state-type comparison are facts every constructor of that handler establishes", 6)
 	stateHandlerValidationReached(w, r, "C20.state-handler-validated")
 
@@ -1438,4 +1441,106 @@ func fieldOwner(w *World, f *types.Var) *types.TypeName {
 		}
 	}
 	return nil
+}
+
+// ---- NIL-RECEIVER (narrow): composableRunnable.genericHelper is nil for a pass-through node until its type has been
+// inferred (composablePassthrough leaves it unset). Where a value that may be that field is used as the receiver of a
+// *genericHelper method (all of which dereference the receiver), a nil test must stand in front of the call.
+func mayBeNilHelper(v ssa.Value, fHelper *types.Var, depth int, seen map[ssa.Value]bool) bool {
+	if depth > 10 || seen[v] {
+		return false
+	}
+	seen[v] = true
+	switch x := v.(type) {
+	case *ssa.UnOp:
+		if isLoadOfField(x, fHelper) {
+			return true
+		}
+	case *ssa.Phi:
+		for i, e := range x.Edges {
+			pred := x.Block().Preds[i]
+			if nonNilOnEdge(e, pred, x.Block()) {
+				continue
+			}
+			if mayBeNilHelper(e, fHelper, depth+1, seen) {
+				return true
+			}
+		}
+	case *ssa.Const:
+		return x.IsNil()
+	}
+	return false
+}
+
+// nonNilOnEdge: the edge pred->blk is taken only when v != nil (pred ends in `if v == nil` / `if v != nil`).
+func nonNilOnEdge(v ssa.Value, pred, blk *ssa.BasicBlock) bool {
+	if len(pred.Instrs) == 0 {
+		return false
+	}
+	iff, ok := pred.Instrs[len(pred.Instrs)-1].(*ssa.If)
+	if !ok {
+		// the test may sit further up: every guard of pred applies to the edge as well
+		return hasGuard(pred, func(g guard) bool { return guardNonNil(g, func(x ssa.Value) bool { return x == v }) })
+	}
+	op, x, y, ok := asCmp(iff.Cond)
+	if ok && x == v && isNilConst(y) {
+		if op == token.EQL && pred.Succs[1] == blk {
+			return true
+		}
+		if op == token.NEQ && pred.Succs[0] == blk {
+			return true
+		}
+	}
+	return hasGuard(pred, func(g guard) bool { return guardNonNil(g, func(x ssa.Value) bool { return x == v }) })
+}
+
+func nilHelperReceiverCheck(w *World, r *Report, rule string) {
+	fHelper := w.Field("compose", "composableRunnable", "genericHelper")
+	ghT := w.Named("compose", "genericHelper")
+	// evidence that the field can be nil: a constructor of composableRunnable that does not set it
+	leavesNil := ""
+	for _, fn := range w.RepoFuncs("compose") {
+		allocs, sets := false, false
+		instrs(fn, func(in ssa.Instruction) {
+			if al, ok := in.(*ssa.Alloc); ok && namedOf(deref(al.Type())) == w.Named("compose", "composableRunnable") && al.Heap {
+				allocs = true
+			}
+		})
+		if !allocs {
+			continue
+		}
+		for _, fw := range fieldWrites(fn) {
+			if sameField(fw.field, fHelper) {
+				sets = true
+			}
+		}
+		if !sets && leavesNil == "" && strings.Contains(strings.ToLower(fn.Name()), "passthrough") {
+			leavesNil = w.fname(fn)
+		}
+	}
+	f := w.Fn("compose", "graphNode.getGenericHelper")
+	n := 0
+	instrs(f, func(in ssa.Instruction) {
+		c, ok := in.(*ssa.Call)
+		if !ok {
+			return
+		}
+		sc := staticCallee(c)
+		if sc == nil || sc.Signature.Recv() == nil || namedOf(deref(sc.Signature.Recv().Type())) != ghT {
+			return
+		}
+		n++
+		recv := c.Call.Args[0]
+		may := mayBeNilHelper(recv, fHelper, 0, map[ssa.Value]bool{})
+		if may {
+			// a dominating test on the receiver itself
+			if hasGuard(c.Block(), func(g guard) bool { return guardNonNil(g, func(x ssa.Value) bool { return x == recv }) }) {
+				may = false
+			}
+		}
+		r.Check(!may, rule, fmt.Sprintf("graphNode.getGenericHelper: receiver of %s", sc.Name()), c.Pos(), "the receiver cannot be the unset helper of a pass-through node (nil test / replacement in front of the call)", "the receiver may be composableRunnable.genericHelper of a pass-through node whose type is not inferred yet ("+leavesNil+" leaves it nil): "+sc.Name()+" dereferences it — AddEdge / AddBranch on a pass-through node declared with WithInputKey / WithOutputKey panics with a nil pointer dereference instead of returning an error")
+	})
+	if n < 2 {
+		r.Fail(rule, "graphNode.getGenericHelper: helper method calls", f.Pos(), fmt.Sprintf("%d calls found (forMapInput / forMapOutput expected)", n))
+	}
 }
